@@ -192,7 +192,14 @@ def harness_bin(name):
 # Sharded execution
 # ----------------------------------------------------------------------------------------
 
-def run_both(prop, cases, impl_argv, model_argv, tag='main', timeout=1500):
+def _limits():
+    # a case that diverges in the implementation must not take the machine down: cap the
+    # address space of every child (4 GiB) — it then aborts and is reported as a crash
+    import resource
+    resource.setrlimit(resource.RLIMIT_AS, (4 << 30, 4 << 30))
+
+
+def run_both(prop, cases, impl_argv, model_argv, tag='main', timeout=600):
     """cases: list of case lines. Runs impl and model on the same shard files in parallel.
     impl_argv/model_argv: functions shard_path -> argv. Returns (impl_lines, model_lines, info)."""
     wd = os.path.join(WORK, prop, tag)
@@ -211,7 +218,7 @@ def run_both(prop, cases, impl_argv, model_argv, tag='main', timeout=1500):
         for side, argv in (('impl', impl_argv(path)), ('model', model_argv(path))):
             out = open(os.path.join(wd, 'shard%02d.%s.out' % (k, side)), 'w')
             err = open(os.path.join(wd, 'shard%02d.%s.err' % (k, side)), 'w')
-            procs.append((k, side, subprocess.Popen(argv, stdout=out, stderr=err, env=ENV), out, err))
+            procs.append((k, side, subprocess.Popen(argv, stdout=out, stderr=err, env=ENV, preexec_fn=_limits), out, err))
     info = {'shards': n, 'crashes': []}
     deadline = time.time() + timeout
     for k, side, p, out, err in procs:
